@@ -294,6 +294,12 @@ func runC10Write(c *Ctx) {
 				c.Except(instrPos(s.in), fn, construct, "assigns a whole decoded value through the destination pointer supplied by Scan/UnmarshalJSON")
 				continue
 			}
+			if s.how == "store" {
+				if why, ok := outParamOfLocals(c.P, f, s.target); ok {
+					c.OK(instrPos(s.in), fn, construct, why)
+					continue
+				}
+			}
 			c.Bad(instrPos(s.in), fn, construct, fmt.Sprintf("%s targets memory reachable from %s through protected %s: a geometry/sequence/R-tree shared with the caller (or other goroutines) is modified in place", s.how, info.nonFreshDesc(), info.protected))
 		default:
 			c.OK(instrPos(s.in), fn, construct, "target is a plain (unprotected) parameter: recorded in the mutates summary and checked at every call site")
@@ -330,6 +336,71 @@ func runC10Write(c *Ctx) {
 			}
 		}
 	}
+}
+
+// outParamOfLocals: the store writes the variable a pointer parameter of an
+// unexported function points at (the variable itself or a field of it, no
+// pointer or slice inside it is followed), the function is only ever called
+// directly, and every call passes the address of a local variable of the
+// caller: the memory written is the caller's own variable, which no geometry
+// shares.
+func outParamOfLocals(p *Program, f *ssa.Function, target ssa.Value) (string, bool) {
+	if f.Parent() != nil || isExportedAPI(f) {
+		return "", false
+	}
+	v := target
+	for {
+		fa, ok := v.(*ssa.FieldAddr)
+		if !ok {
+			break
+		}
+		v = fa.X
+	}
+	par, ok := v.(*ssa.Parameter)
+	if !ok {
+		return "", false
+	}
+	idx := paramIndex(f, par)
+	if idx < 0 {
+		return "", false
+	}
+	if _, isPtr := par.Type().Underlying().(*types.Pointer); !isPtr {
+		return "", false
+	}
+	sites := 0
+	for _, g := range p.Funcs {
+		if !p.InRepo(g) {
+			continue
+		}
+		bad := false
+		eachInstr(g, func(in ssa.Instruction) {
+			for _, op := range in.Operands(nil) {
+				if *op != ssa.Value(f) {
+					continue
+				}
+				ci, isCall := in.(ssa.CallInstruction)
+				if !isCall || ci.Common().Value != ssa.Value(f) || ci.Common().IsInvoke() {
+					bad = true // used as a value: unknown callers
+					continue
+				}
+				if _, isDefer := in.(*ssa.Defer); isDefer {
+					bad = true
+				}
+				if al, isAlloc := ci.Common().Args[idx].(*ssa.Alloc); !isAlloc || g.Parent() != nil && al.Parent() != g {
+					bad = true
+				} else {
+					sites++
+				}
+			}
+		})
+		if bad {
+			return "", false
+		}
+	}
+	if sites == 0 {
+		return "", false
+	}
+	return fmt.Sprintf("out-parameter: %s is unexported and only called directly, and each of its %d call sites passes the address of a local variable of the caller", FuncName(f), sites), true
 }
 
 // isOptionParam: pointer to an unexported named struct (functional options).
